@@ -30,6 +30,14 @@ def candidates():
             for op in OPS:
                 d = "%s<%s> %s" % (n, tn, op)
                 out[d] = ("native", "c12::native<%s,%s,c12::%s>" % (wtype(n, tc), tc, op))
+    mixops = ["ADD", "SUB", "MUL", "DIV", "MOD", "AND", "OR", "XOR", "LT", "LE", "GT", "GE", "EQ", "NE"]
+    bare = [("int", "i32"), ("long", "i64"), ("unsigned char", "u8"), ("short", "i16"), ("unsigned", "u32"), ("signed char", "i8")]
+    for n in ["S", "O", "R", "SO", "SOR"]:
+        for tc, tn in TS:
+            for bc, bn in bare:
+                for op in mixops:
+                    d = "%s<%s> %s bare %s" % (n, tn, op, bn)
+                    out[d] = ("mixed", "c12::native_mixed<%s,%s,%s,c12::%s>" % (wtype(n, tc), tc, bc, op))
     fx = [("short", "i16", -8, -8), ("short", "i16", -4, -10), ("int", "i32", -16, -16), ("int", "i32", -8, -20), ("signed char", "i8", -3, -4), ("long", "i64", -30, -30), ("unsigned short", "u16", -8, -8), ("unsigned", "u32", -16, -8)]
     for tc, tn, e1, e2 in fx:
         for k in ["MULWIDEN", "MIXADD", "AVERAGE", "SQUARE", "INCDEC"]:
@@ -49,7 +57,8 @@ def run(tier, seed, only=None):
     rng = random.Random("C12-%d" % seed)
     fixed = [k for k in uni if k["kind"] == "fixed"]
     nat = [k for k in uni if k["kind"] == "native"]
-    ks = fixed + (nat if tier == "thorough" else nat[:150] + rng.sample(nat[150:], 350))
+    mixed = [k for k in uni if k["kind"] == "mixed"]
+    ks = fixed + (nat if tier == "thorough" else nat[:150] + rng.sample(nat[150:], 350)) + (mixed if tier == "thorough" or len(mixed) <= 300 else mixed[:60] + rng.sample(mixed[60:], 240))
     if only:
         ks = [k for k in uni if k["desc"] == only["kernel"]]
     cfgs = ["g-san", "g-rel"] if tier == "quick" else ["g-san", "g-rel", "c-rel", "c-san"]
